@@ -313,6 +313,29 @@ def check_state(case):
                             "description in place changed what %s says "
                             "about a chip" % what,
                             {"edited": list(ed), "chip": list(c)})
+        # ---- a chip that was silent answers again (it was busy, or its
+        # board was reset): a later probe through the same controller
+        # describes the machine as it is then
+        if case["silent"]:
+            bx, by = case["silent"][case["h"] % len(case["silent"])]
+            back = m.chips[(bx, by)]
+            back.silent = False
+            code = getattr(back, "no_reply_code", None)
+            back.no_reply_code = None
+            with sut("probing again after a silent chip came back"):
+                si_back = mc.get_system_info()
+            back.silent = True
+            back.no_reply_code = code
+            require(set(si_back) == responding | {(bx, by)},
+                    "a probe made after a silent chip came back (same "
+                    "controller) does not report exactly the chips "
+                    "responding then",
+                    {"back": [bx, by],
+                     "missing": sorted(map(list, (responding | {(bx, by)}) -
+                                           set(si_back)))[:6],
+                     "extra": sorted(map(list, set(si_back) - responding -
+                                         {(bx, by)}))[:6]})
+            cls.append("silent-chip-back")
         # ---- SystemInfo helpers
         all_xy = set((x, y) for x in range(wx) for y in range(hy))
         require(set(si.dead_chips()) == all_xy - responding and
